@@ -165,7 +165,7 @@ def k_width(rep):
                'the pool-size obligation of K-layout does not depend on the rounding)',
                assumes=['slice: the statement assigning width_y (with its enclosing if nslice > 1)'])
     try:
-        fac, text = slicer.slice_function(F, 'filter_mc_sharemem', targets=['width_y'], params=['img_y', 'nslice', 'step_size'], returns=['width_y'], flatten_loops=True)
+        fac, text = slicer.slice_function(F, 'filter_mc_sharemem', targets=['width_y'], params=['img_y', 'nslice', 'step_size'], returns=['width_y'], flatten_loops=True, search=True)
     except slicer.AnchorMissing as e:
         rep.inconc('anchor-missing %s' % e)
         rep.end_kernel()
@@ -210,7 +210,7 @@ def k_layout(rep):
                assumes=['a worker blocked in barrier.wait() keeps its pool slot, so all parties must be able to run at once: processes >= parties'])
     try:
         fac, text = slicer.slice_function(F, 'filter_mc_sharemem', targets=['barrier', 'pool', 'ymins', 'ymaxs'], params=['cores', 'nslice', 'shape', 'step_size'],
-                                          calls=['ymaxs.append'], returns=['ymins', 'ymaxs'], closure=True, closure_exclude=())
+                                          calls=['ymaxs.append'], returns=['ymins', 'ymaxs'], closure=True, closure_exclude=(), optional_calls=True)
     except slicer.AnchorMissing as e:
         rep.inconc('anchor-missing %s' % e)
         rep.end_kernel()
@@ -297,7 +297,7 @@ def search_layout_witness():
     (uses the real layout statements through the slice in concrete mode)"""
     try:
         fac, _ = slicer.slice_function(F, 'filter_mc_sharemem', targets=['barrier', 'pool', 'ymins', 'ymaxs'], params=['cores', 'nslice', 'shape', 'step_size'],
-                                       calls=['ymaxs.append'], returns=['ymins', 'ymaxs'], closure=True, closure_exclude=())
+                                       calls=['ymaxs.append'], returns=['ymins', 'ymaxs'], closure=True, closure_exclude=(), optional_calls=True)
     except slicer.AnchorMissing:
         return None
     cands = [(H, cores, ns, st) for H in (101, 64, 33, 16) for cores in (2, 3) for ns in (cores, cores + 1, 2 * cores) for st in (4,)]
